@@ -455,6 +455,16 @@ func init() {
 		}
 		return &nv, true
 	}
+	for _, m := range []string{"Get", "Has", "Set", "Delete"} {
+		mm := m
+		libModels["(github.com/cosmos/cosmos-sdk/store/prefix.Store)."+mm] = func(c *libCall) (Val, bool) {
+			v, ok := c.args[0].(*ViewVal)
+			if !ok {
+				return nil, false
+			}
+			return c.fr.viewMethod(c.st, v, mm, c.args[1:], c.sig), true
+		}
+	}
 	kvIter := func(c *libCall) (Val, bool) {
 		v, ok := c.args[0].(*ViewVal)
 		if !ok {
@@ -477,6 +487,45 @@ func init() {
 		c.st.Assume(Implies(And(App(SBool, "(_ is kf)", b), Eq(App(SInt, "kf_id", b), IntLit(-1)), App(SBool, "(_ is bint)", App(SBytes, "kf_1", b))), Eq(r, App(SInt, "bint_v", App(SBytes, "kf_1", b)))))
 		c.st.Assume(Implies(Eq(App(SInt, "blen", b), IntLit(0)), Eq(r, IntLit(0))))
 		return r, true
+	}
+
+	libModels["strings.Join"] = func(c *libCall) (Val, bool) {
+		sl := c.arg(0)
+		sepv, ok := c.args[1].(T)
+		if !ok {
+			return nil, false
+		}
+		sep, ok := c.fr.ex.Lits.Lookup(sepv)
+		n, okn := constSliceLen(sl)
+		if !ok || !okn || n < 1 || n > 4 {
+			return nil, false
+		}
+		elemT := c.sig.Params().At(0).Type().Underlying().(*types.Slice).Elem()
+		var parts []T
+		for i := 0; i < n; i++ {
+			parts = append(parts, c.st.SliceElem(sl, IntLit(int64(i)), elemT))
+		}
+		r := c.fr.ex.JoinTerm(parts, sep)
+		r = c.st.Name("joined", r)
+		c.st.Assume(Not(Eq(r, bnilT)))
+		return WithGo(r, types.Typ[types.String]), true
+	}
+
+	for _, an := range []string{"AccAddress", "ValAddress", "ConsAddress"} {
+		name := an
+		libModels["("+sdkPkg+name+").String"] = func(c *libCall) (Val, bool) {
+			b := c.arg(0)
+			tid := IntLit(int64(c.fr.ex.TypeID(c.sig.Recv().Type())))
+			r := c.st.Name("addrstr", App(SBytes, "addr_string", tid, b))
+			c.st.Assume(Not(Eq(r, bnilT)))
+			return WithGo(r, types.Typ[types.String]), true
+		}
+		libModels["("+sdkPkg+name+").Bytes"] = func(c *libCall) (Val, bool) {
+			return WithGo(c.arg(0), c.sig.Results().At(0).Type()), true
+		}
+		libModels["("+sdkPkg+name+").Empty"] = func(c *libCall) (Val, bool) {
+			return Eq(App(SInt, "blen", c.arg(0)), IntLit(0)), true
+		}
 	}
 
 	// ---- time -----------------------------------------------------------------------------
